@@ -82,6 +82,7 @@ def explore(tier, seed):
         # a calendar that moved backwards
         chunks.append(("bump", "MAJOR." + b, tier))
     chunks.append(("rejected", None, None))
+    chunks.append(("tags", None, None))
     return pool.run_chunks(run_chunk, chunks)
 
 
@@ -93,9 +94,69 @@ def run_chunk(chunk):
         sweep(st, pattern, arg)
     elif kind == "bump":
         bump_level(st, pattern, arg)
+    elif kind == "tags":
+        behind_a_tag(st)
     else:
         rejected(st)
     return st
+
+
+# (pattern, earlier date, later date): the two renderings straddle a 9 -> 10 or 99 -> 100 step of a calendar part
+TAG_CASES = [
+    ("YYYY.MM.INC0", dt.date(2024, 9, 20), dt.date(2024, 10, 5)), ("YYYY.0M.0D.INC0", dt.date(2024, 9, 20), dt.date(2024, 10, 5)),
+    ("YYYY.MM.DD.INC0", dt.date(2024, 10, 9), dt.date(2024, 10, 10)), ("YYYY.WW.INC0", dt.date(2024, 3, 4), dt.date(2024, 3, 11)),
+    ("GGGG.VV.INC0", dt.date(2024, 2, 26), dt.date(2024, 3, 4)), ("YYYY.JJJ.INC0", dt.date(2024, 4, 8), dt.date(2024, 4, 9)),
+    ("YY.MM.INC0", dt.date(2024, 9, 20), dt.date(2024, 10, 5)),
+]
+
+
+def behind_a_tag(st):
+    """The current version comes from the config in one project and from a newer tag in the other; the bump date lies BEFORE it (the
+    current version is 'in the future'): `update` must not announce calendar parts below those of the true current version."""
+    import os
+
+    from .. import fakevcs
+
+    d = pool.fresh_dir("c14t")
+    os.chdir(d)
+    for pattern, d1, d2 in TAG_CASES:
+        tree = M.parse_pattern(pattern)
+        fields = [M.PARTS[n][0] for n in M.parts_in_order(tree)]
+
+        def ver(day, inc):
+            state = {f: v for f, v in M.cal_from_date(day).items() if f in fields}
+            state["inc0"] = inc
+            return M.render(tree, state)
+
+        older, newer = ver(d1, 1), ver(d2, 0)
+        for cfgv, tag in ((older, newer), (newer, older)):
+            for date in (d1, d1 - dt.timedelta(days=40)):
+                world.clear_dir(".")
+                world.write_tree({"bumpver.toml": f'[bumpver]\ncurrent_version = "{cfgv}"\nversion_pattern = "{pattern}"\n'.encode()})
+                os.mkdir(".git")
+                fakevcs.install(fakevcs.FakeVCS("git", tags_all=[tag], tags_merged=[tag], status=[]))
+                try:
+                    o = world.cli("update", "--dry", "--no-fetch", "--date", date.isoformat())
+                finally:
+                    fakevcs.uninstall()
+                st.evaluations += 1
+                st.transitions += 1
+                st.validated += 1
+                case = {"pattern": pattern, "config": cfgv, "tag": tag, "bump_date": date.isoformat(), "tags_case": True}
+                st.observe((pattern, cfgv, tag, date.isoformat(), o.exit, o.new_version))
+                st.state("tags", pattern, cfgv, tag, date.isoformat())
+                st.nontriv("tags", pattern, cfgv, tag, date.isoformat())
+                if o.exit != 0:
+                    st.outcomes["behind-a-tag:refused"] += 1
+                    continue
+                got, cur = cal_tuple(tree, o.new_version), cal_tuple(tree, newer)
+                if got is None or got < cur:
+                    st.outcomes["violation"] += 1
+                    st.violation(f"C14:calendar-moves-backwards-when-config-and-tag-differ:{pattern}", case,
+                                 {"announced": o.new_version, "true_current_version": newer, "old_version_line": o.old_version})
+                else:
+                    st.outcomes["behind-a-tag:ok"] += 1
+    os.chdir("/")
 
 
 def sweep(st, pattern, spans):
@@ -249,7 +310,9 @@ def rejected(st):
 
 def replay(case, st):
     world.set_today(dt.date(2033, 3, 3))
-    if "dates" in case:
+    if case.get("tags_case"):
+        behind_a_tag(st)
+    elif "dates" in case:
         sweep(st, case["pattern"], [tuple(case["dates"])])
     elif "date" in case:
         tree = M.parse_pattern(case["pattern"])
